@@ -94,6 +94,8 @@ structure Stmt where
   aspOpt  : Nat := 0                       -- 0 ANY, 1 ALL, 2 INVERT
   nbrOpt  : Nat := 0                       -- neighbor-set: 0 ANY, 2 INVERT
   aspLen  : Option (Nat × Nat) := none  -- as-path-length condition: (0 eq | 1 ge | 2 le, n)
+  medEq   : Option Nat := none  -- med-eq condition (false when there is no MED)
+  lpEq    : Option Nat := none  -- local-pref-eq condition (an absent LOCAL_PREF counts as 100)
   anyPeer : Bool := true        -- no neighbor condition
   peers   : List Nat := []      -- match-neighbor-set ANY (peer indices)
   setMed  : Option Nat := none  -- med action, replace
@@ -129,6 +131,12 @@ def Stmt.matches (s : Stmt) (peer : Nat) (r : Cand) : Bool :=
     (match s.aspLen with
      | none => true
      | some c => cmpLen c (asPathLen r)) &&
+    (match s.medEq with
+     | none => true
+     | some v => r.med == some v) &&
+    (match s.lpEq with
+     | none => true
+     | some v => r.localPref.getD 100 == v) &&
     (match s.pfxSet with
      | none => true
      | some es =>
@@ -421,6 +429,20 @@ def lockOk (sends write : Bool) : Bool := !sends || write
 
 /-- the sender applies the list of one pass in order: for one wire key the LAST action wins -/
 def lastAction (k : Nat) (l : List P) : Option P := (l.filter (fun p => p.r.pfx == k)).getLast?
+
+/-- ListPath ADJ_OUT with EnableFiltered for one peer (adjRibOutForListPath /
+    policyEvaluatedAdjRibOutPaths): every best path that passes loop prevention toward the peer
+    is listed; `true` = flagged `filtered`, i.e. the export policy rejects the path AS IT IS
+    ADVERTISED (after UpdatePathAttrs) -/
+def adjOutFiltered (s : S) (t : PeerCfg) : List (Nat × Bool) :=
+  s.rib.filterMap (fun e =>
+    match e.2.head? with
+    | some b =>
+      if b.nhInvalid then none else
+      match filterpathCore s.g t ⟨b, false⟩ none with
+      | some p => some (e.1, (applyPol s.exp t.idx (prePolicy s.g t p.r)).isNone)
+      | none => none
+    | none => none)
 
 inductive SOp where
   | up (idx : Nat)
